@@ -574,7 +574,7 @@ fn main() {
             run_layer("singles(full)", &full, 1, &mut layers, &mut caps);
             run_layer("pairs(reduced)", &reduced, 2, &mut layers, &mut caps);
             run_layer("triples(40)", &triple_alphabet(40), 3, &mut layers, &mut caps);
-            run_layer("quads(12)", &triple_alphabet(12), 4, &mut layers, &mut caps);
+            run_layer("quads(20)", &triple_alphabet(20), 4, &mut layers, &mut caps);
             run_layer("pairs(full)", &full, 2, &mut layers, &mut caps);
         }
     }
